@@ -200,6 +200,11 @@ def check_case(fn, recipe, script, focus, handlers, delivery, rec=None):
         HY.force_global_clean()
         raise PropertyViolation("run", f"setting up / running {handlers!r} on {focus!r} ({delivery}) raised "
                                        f"{HY.describe_exc(e)}\n{src}", extra={"bucket": "run:" + HY.exc_bucket(e)})
+    if any(len(sk) > 5000 for sk in sinks) or len(out["log"]) > 5000:
+        # runaway on ptera's side too (cut short by a cap): nothing to compare
+        if rec is not None:
+            rec.count("discarded-runaway-run")
+        return
     ctxt = f"focus {focus!r} handlers {handlers!r} delivery {delivery} input {recipe!r} script {script!r}\n{src}"
     if closure_focus:
         has_override = any(h[0] == "override" for h in handlers)
